@@ -7,6 +7,8 @@ pub mod c04;
 pub mod c06;
 pub mod c11;
 pub mod c12;
+pub mod c15;
+pub mod c16;
 pub mod c17;
 pub mod c18;
 pub mod c19;
@@ -19,6 +21,8 @@ pub fn registry() -> Vec<(&'static str, fn(&Report), Option<fn(&Value) -> String
         ("C06", c06::run, Some(c06::replay)),
         ("C11", c11::run, Some(c11::replay)),
         ("C12", c12::run, Some(c12::replay)),
+        ("C15", c15::run, Some(c15::replay)),
+        ("C16", c16::run, Some(c16::replay)),
         ("C17", c17::run, Some(c17::replay)),
         ("C18", c18::run, Some(c18::replay)),
         ("C19", c19::run, None),
